@@ -1,4 +1,5 @@
 import QM.QuoteLemmas
+import QM.UnquoteLemmas
 /-! # C01 — quoted podman command lines split back into exactly the intended arguments
 
 `P.quoteWords` is the model of `quote_words` (= `PodmanCommand::to_escaped_string`), driven by the
@@ -22,6 +23,10 @@ example : splitAll execFlags (quoteWords ["".toList, "a b".toList, "x\"y'\\\n\t\
 theorem C01_count (ws : List Str) (hw : ∀ w ∈ ws, ∀ c ∈ w, c ≠ '\x00') :
     (splitAll execFlags (quoteWords ws)).map List.length = some ws.length := by
   rw [C01_roundtrip ws hw]; rfl
+
+/-- the rendered line is always accepted when it is stored in the service unit (`add_raw` validates with the unquoter) -/
+theorem C01_storable (ws : List Str) (hw : ∀ w ∈ ws, ∀ c ∈ w, c ≠ '\x00') :
+    ∃ r, unquoteValue true (quoteWords ws) = some r := unquote_quoteWords ws hw
 
 /-- an empty argument is rendered as `""` and not dropped (the repaired defect D1) -/
 theorem C01_empty_kept : quoteWords [['a'], [], ['b']] = ['a', ' ', '"', '"', ' ', 'b'] := by decide
